@@ -501,6 +501,7 @@ func configs(tier string) []config {
 		out = append(out, config{Size: 32768, RTX: true, Start: 65000, Depth: 3})
 	} else {
 		out = append(out, config{Size: 1024, RTX: true, Start: 65000, Depth: 3})
+		out = append(out, config{Size: 32768, RTX: false, Start: 65000, Depth: 3}) // the largest legal size
 	}
 	return out
 }
